@@ -14,6 +14,9 @@
 #include "EbPictureBufferDesc.h"
 
 #include "EbDecHandle.h"
+#ifdef SVT_AV1_VERIF
+#include "EbVerifHooks.h"
+#endif
 #include "EbDecBitReader.h"
 #include "EbObuParse.h"
 
@@ -1089,6 +1092,9 @@ void svt_setup_motion_field(EbDecHandle *dec_handle, DecThreadCtxt *thread_ctxt)
         volatile uint32_t *num_threads_header = &dec_mt_frame_data->num_threads_header;
         while (*num_threads_header != dec_handle->dec_config.threads &&
                (EB_FALSE == dec_mt_frame_data->end_flag))
+#ifdef SVT_AV1_VERIF
+            SVT_VERIF_SPIN(num_threads_header)
+#endif
             ;
     }
 }
